@@ -73,7 +73,10 @@ class Finding(object):
 class Rule(object):
     """Result container for one rule of one property on one run."""
 
+    live = []            # every Rule made during the current run_property call (so that findings survive an analysis error)
+
     def __init__(self, rid, title):
+        Rule.live.append(self)
         self.rid = rid
         self.title = title
         self.instances = []  # (site, what was established)
@@ -147,7 +150,14 @@ def run_property(prop, rule_fns, tier="quick", explanation="", assumptions=(), f
     seed = int(os.environ.get("VERIF_SEED", "0") or 0)
     rules = []
     errors = []
+    def salvage(mark):
+        # a rule that stopped with "not decided" after it had already reported a construct: the report stands (a violation is
+        # positive evidence and outranks the analysis error), the error is recorded as well
+        for r_ in Rule.live[mark:]:
+            if r_.findings and not any(r_ is x for x in rules):
+                rules.append(r_)
     for fn in rule_fns:
+        mark = len(Rule.live)
         try:
             res = fn()
             if isinstance(res, Rule):
@@ -157,9 +167,12 @@ def run_property(prop, rule_fns, tier="quick", explanation="", assumptions=(), f
                 rules.append(r)
         except AnalysisError as e:
             errors.append("%s: %s" % (getattr(fn, "__name__", "?"), e))
+            salvage(mark)
         except Exception as e:  # a traceback is an analysis error, not a violation
             errors.append("%s: internal error %s: %s\n%s" % (getattr(fn, "__name__", "?"), type(e).__name__, e,
                                                             traceback.format_exc()))
+            salvage(mark)
+    del Rule.live[:]
     thorough_info = None
     if tier == "thorough" and thorough_fn is not None and not errors:
         try:
